@@ -14,7 +14,16 @@ import (
 // The reference resolver follows the property's rules with Go's reflect on the real values,
 // independently of the engine; unspecified combinations are classified as unjudged.
 
+// C8Audit is embedded (by value) in C8Inner and C8User: its fields and method are promoted
+type C8Audit struct {
+	Author string
+	Rev    int
+}
+
+func (a C8Audit) Stamp() string { return "stamp:" + a.Author }
+
 type C8Inner struct {
+	C8Audit
 	Title string
 	Depth int
 	Items []C8Inner
@@ -25,6 +34,7 @@ type C8Inner struct {
 func (i C8Inner) Label() string { return "inner:" + i.Title }
 
 type C8User struct {
+	C8Audit
 	Name      string
 	Age       int
 	Score     float64
@@ -100,9 +110,9 @@ func (u C8User) Inn() C8Inner           { return u.Inner }
 
 func c8Root(r *Rng) map[string]any {
 	name := r.Pick([]string{"Ann", "Bob", "Zoë", "x<y"})
-	inner := C8Inner{Title: "T" + name, Depth: r.Intn(5), Items: []C8Inner{{Title: "i0"}, {Title: "i1", Depth: 1}}, Flags: map[string]bool{"on": true, "off": false}, note: "n"}
+	inner := C8Inner{C8Audit: C8Audit{Author: "ia-" + name, Rev: 3}, Title: "T" + name, Depth: r.Intn(5), Items: []C8Inner{{Title: "i0"}, {Title: "i1", Depth: 1}}, Flags: map[string]bool{"on": true, "off": false}, note: "n"}
 	friend := &C8User{Name: "Fr" + name, Age: 20 + r.Intn(30), Tags: []string{"f"}, Meta: map[string]any{"k": "fv"}, Inner: C8Inner{Title: "ft"}}
-	u := C8User{Name: name, Age: r.Intn(90), Score: float64(r.Intn(100)) / 4, Active: r.Bool(), Small: uint8(r.Intn(200)),
+	u := C8User{C8Audit: C8Audit{Author: "ua-" + name, Rev: r.Intn(9)}, Name: name, Age: r.Intn(90), Score: float64(r.Intn(100)) / 4, Active: r.Bool(), Small: uint8(r.Intn(200)),
 		Tags: []string{"t0", "t1", "t2"}[:r.Intn(4)], Nums: [3]int{r.Intn(9), 7, 9},
 		Meta:   map[string]any{"k": "v", "n": 5, "nil": nil, "lst": []any{1, "x", nil, []int{4, 5}}, "sub": map[string]any{"deep": "dv"}, "user": friend, "Name": "meta-name"},
 		ByID:   map[int]string{1: "one", 2: "two"},
@@ -439,7 +449,7 @@ func c8GenPath(r *Rng, root map[string]any) (string, []c8Step, string) {
 	src := rootName
 	cur := c8Unwrap(reflect.ValueOf(root[rootName]))
 	n := r.Intn(5)
-	valid := []string{"Name", "Age", "Score", "Active", "Small", "Tags", "Nums", "Meta", "ByID", "Friend", "NilFriend", "Any", "Inner", "PInner", "Fn", "Title", "Depth", "Items", "Flags",
+	valid := []string{"Author", "Rev", "Stamp", "C8Audit", "Name", "Age", "Score", "Active", "Small", "Tags", "Nums", "Meta", "ByID", "Friend", "NilFriend", "Any", "Inner", "PInner", "Fn", "Title", "Depth", "Items", "Flags",
 		"Greeting", "PGreeting", "Self", "Ptr", "NilPtr", "Val", "NilVal", "Inn", "Label", "k", "n", "nil", "lst", "sub", "deep", "user", "a", "b", "u", "l", "f", "on", "off"}
 	invalid := []string{"secret", "note", "missing", "Nope", "name", "Fn1", "Two", "Nothing", "Add", "Sum", "Maybe", "Echo", "zz"}
 	for i := 0; i < n; i++ {
@@ -464,8 +474,8 @@ func c8GenPath(r *Rng, root map[string]any) (string, []c8Step, string) {
 				sv = sv.Elem()
 			}
 			if sv.Kind() == reflect.Struct {
-				for f := 0; f < sv.NumField(); f++ {
-					real = append(real, sv.Type().Field(f).Name)
+				for _, vf := range reflect.VisibleFields(sv.Type()) { // promoted fields included
+					real = append(real, vf.Name)
 				}
 			}
 			if sv.Kind() == reflect.Map && sv.Type().Key().Kind() == reflect.String {
@@ -573,6 +583,27 @@ func c8GenPath(r *Rng, root map[string]any) (string, []c8Step, string) {
 		}{{"0", 0}, {"1", 1}, {"2", 2}, {"5", 5}, {"neg", -1}, {"\"k\"", "k"}, {"\"Name\"", "Name"}, {"\"a\"", "a"}, {"\"secret\"", "secret"}, {"\"missing\"", "missing"}, {"k", "b"}, {"ik", 1}, {"idx", 2}, {"fk", 1.5}, {"bk", true},
 			{"nilv", nil}, {"1 + 1", 2}, {"idx - 1", 1}, {"\"de\" + \"ep\"", "deep"}, {"ik|add:6", 7}, {"\"NAME\"|lower|capfirst", "Name"}, {"big", 99}, {"str", "text"}, {"flt", 2.5}}
 		s := subs[r.Intn(len(subs))]
+		// on a struct (or pointer to one): mostly a name that really exists there, promoted fields and methods included
+		if sv := cur; sv.IsValid() && r.Chance(70) {
+			for sv.Kind() == reflect.Ptr && !sv.IsNil() {
+				sv = sv.Elem()
+			}
+			if sv.Kind() == reflect.Struct {
+				var real []string
+				for _, vf := range reflect.VisibleFields(sv.Type()) {
+					real = append(real, vf.Name)
+				}
+				for m := 0; m < cur.Type().NumMethod(); m++ {
+					real = append(real, cur.Type().Method(m).Name)
+				}
+				sortStrings(real)
+				nm := r.Pick(real)
+				s.src, s.val = "\""+nm+"\"", nm
+				if r.Chance(25) {
+					s.src, s.val = "\""+strings.ToUpper(nm)+"\"|lower|capfirst", strings.ToUpper(nm[:1])+strings.ToLower(nm[1:])
+				}
+			}
+		}
 		st := c8Step{kind: "sub", sub: s.src, subV: s.val, src: "[" + s.src + "]"}
 		steps = append(steps, st)
 		src += st.src
@@ -855,6 +886,38 @@ func c8Shadowing(c *C, r *Rng) {
 		return
 	}
 	c.Cover("shadowing")
+	// `only` keeps the includer's variables out of the included template - the set's globals are visible in every
+	// template all the same (statically and lazily included, one and two levels deep)
+	{
+		oset, _ := newSet(map[string]string{"/inc.tpl": "{{ v.Name }}", "/outer.tpl": "<{% include \"/inc.tpl\" with r=2 only %}>"})
+		if inG {
+			oset.Globals["v"] = C8User{Name: "global"}
+		}
+		osrc := r.Pick([]string{"{% include \"/inc.tpl\" with q=1 only %}", "{% include incn with q=1 only %}", "{% with v=t %}{% include \"/inc.tpl\" with q=1 only %}{% endwith %}", "{% include \"/outer.tpl\" with q=1 only %}", "{% include \"/outer.tpl\" %}"})
+		otpl, oerr := oset.FromString(osrc)
+		if oerr != nil {
+			c.Fail("compile-error", D{"source": osrc, "error": oerr.Error()})
+			return
+		}
+		octx := pongo2.Context{"t": C8User{Name: "tag"}, "incn": "/inc.tpl"}
+		if inC {
+			octx["v"] = &C8User{Name: "context"}
+		}
+		oout, oxerr := otpl.Execute(octx)
+		c.Eval(1)
+		owant := ""
+		if inG {
+			owant = "global"
+		}
+		if strings.Contains(osrc, "outer") {
+			owant = "<" + owant + ">"
+		}
+		if oxerr != nil || oout != owant {
+			c.Fail("shadowing", D{"source": osrc, "files": "/inc.tpl = {{ v.Name }}; /outer.tpl = <{% include \"/inc.tpl\" with r=2 only %}>", "in_globals": inG, "in_context": inC, "output": oout, "expected": owant, "error": errStr(oxerr), "why": "inside an `only` include context entries are gone, globals stay"})
+			return
+		}
+		c.Cover("globals_in_only_include")
+	}
 	// a name bound by a tag to nothing (an omitted macro parameter, an argument or with-value that is undefined or nil)
 	// still shadows the context key and the global - directly and inside nested with/for regions of the binding construct
 	inner := "[{{ v.Name }}{% with q=1 %}{{ v.Name }}{% for i in one %}{{ v.Name }}{{ v }}{% endfor %}{% endwith %}{% if v %}T{% endif %}]"
